@@ -5,27 +5,216 @@ import RoaringModel.Lemmas.BitmapMut
 namespace Roaring
 namespace Bitmap
 
-theorem contains_spec (b : Bitmap) (h : b.WF) (v : Nat) :
-    contains b v = Spec.contains (elems b) v := by
-  sorry
+/-! ### the abstraction, container by container -/
 
-theorem len_spec (b : Bitmap) (h : b.WF) : len b = (elems b).length := by
-  sorry
+theorem elems_cons (c : Container) (cs : Bitmap) : elems (c :: cs) = c.elems ++ elems cs := by
+  simp [elems]
+
+theorem elems_append (a b : Bitmap) : elems (a ++ b) = elems a ++ elems b := by
+  simp [elems]
+
+theorem length_cElems (c : Container) : c.elems.length = c.store.elems.length := by
+  simp [Container.elems]
+
+theorem cLen_eq (c : Container) (hc : c.store.Inv) : c.len = c.store.elems.length :=
+  Store.len_eq _ hc
+
+theorem cLen_eq' (c : Container) (hc : c.store.Inv) : c.len = c.elems.length := by
+  rw [length_cElems]; exact Store.len_eq _ hc
+
+/-- the values of a container lie in its 2^16-aligned window -/
+theorem cElems_bounds (c : Container) (hc : c.store.Inv) :
+    ∀ y ∈ c.elems, c.key * 65536 ≤ y ∧ y < c.key * 65536 + 65536 := by
+  intro y hy
+  rw [mem_cElems c hc] at hy
+  have := Store.elems_lt _ hc _ hy.2
+  omega
+
+/-- the values of the later containers lie above the window of the first one -/
+theorem elems_tail_bounds {c : Container} {cs : Bitmap} (h : Dir (c :: cs)) :
+    ∀ y ∈ elems cs, c.key * 65536 + 65536 ≤ y := by
+  intro y hy
+  rw [mem_elems_iff_exists] at hy
+  obtain ⟨d, hd, hy⟩ := hy
+  have h1 := h.head_lt d hd
+  have h2 := cElems_bounds d (Store.canon_inv _ (h.2 d (List.mem_cons_of_mem _ hd)).2) y hy
+  omega
+
+theorem Dir.inv {b : Bitmap} (h : Dir b) {c : Container} (hc : c ∈ b) : c.store.Inv :=
+  Store.canon_inv _ (h.2 c hc).2
+
+theorem WF.tail {c : Container} {cs : Bitmap} (h : Bitmap.WF (c :: cs)) : Bitmap.WF cs :=
+  wf_of_dir _ h.dir.tail (fun d hd => h.ne d (List.mem_cons_of_mem _ hd))
+
+theorem cElems_ne (c : Container) (h : c.store.elems ≠ []) : c.elems ≠ [] := by
+  unfold Container.elems
+  intro hc
+  exact h (List.map_eq_nil_iff.mp hc)
+
+/-! ### `len` -/
+
+theorem foldl_len (b : Bitmap) (a : Nat) :
+    b.foldl (fun acc c => acc + c.len) a = a + len b := by
+  unfold len
+  induction b generalizing a with
+  | nil => simp
+  | cons c cs ih =>
+    simp only [List.foldl_cons]
+    rw [ih (a + c.len), ih (0 + c.len)]
+    omega
+
+theorem len_nil : len [] = 0 := rfl
+
+theorem len_cons (c : Container) (cs : Bitmap) : len (c :: cs) = c.len + len cs := by
+  show List.foldl (fun acc c => acc + c.len) 0 (c :: cs) = _
+  rw [List.foldl_cons, foldl_len]
+  omega
+
+theorem len_eq_length (b : Bitmap) (h : b.Dir) : len b = (elems b).length := by
+  induction b with
+  | nil => rfl
+  | cons c cs ih =>
+    rw [len_cons, elems_cons, List.length_append, ih h.tail,
+      cLen_eq' c (h.inv (List.mem_cons_self ..))]
+
+theorem len_spec (b : Bitmap) (h : b.WF) : len b = (elems b).length :=
+  len_eq_length b h.dir
+
+/-! ### `is_empty` -/
 
 theorem isEmpty_spec (b : Bitmap) (h : b.WF) : isEmpty b = (elems b).isEmpty := by
-  sorry
+  cases b with
+  | nil => rfl
+  | cons c cs =>
+    have hne := cElems_ne c (h.ne c (List.mem_cons_self ..))
+    rw [elems_cons]
+    cases hce : c.elems with
+    | nil => exact absurd hce hne
+    | cons a l => rfl
+
+/-! ### `contains` -/
+
+theorem contains_cons_lt (c : Container) (cs : Bitmap) (v : Nat) (h1 : c.key < hi16 v) :
+    contains (c :: cs) v = contains cs v := by
+  unfold contains
+  rw [search_cons]
+  simp only [h1, if_true]
+  cases hs : search cs (hi16 v) with
+  | mk f loc => cases f <;> simp
+
+theorem contains_cons_eq (c : Container) (cs : Bitmap) (v : Nat) (h2 : c.key = hi16 v) :
+    contains (c :: cs) v = c.contains (lo16 v) := by
+  unfold contains
+  rw [search_cons]
+  have h1 : ¬ c.key < hi16 v := by omega
+  simp [h2]
+
+theorem contains_cons_gt (c : Container) (cs : Bitmap) (v : Nat) (h3 : hi16 v < c.key) :
+    contains (c :: cs) v = false := by
+  unfold contains
+  rw [search_cons]
+  have h1 : ¬ c.key < hi16 v := by omega
+  have h2 : (c.key == hi16 v) = false := by simp; omega
+  simp [h1, h2]
+
+theorem contains_iff (v : Nat) : ∀ (b : Bitmap), b.Dir →
+    (contains b v = true ↔ lo16 v ∈ chunk b (hi16 v)) := by
+  intro b
+  induction b with
+  | nil => intro _; simp [contains, search_nil, chunk]
+  | cons c cs ih =>
+    intro hdir
+    have hl : lo16 v < 65536 := by unfold lo16; omega
+    by_cases h1 : c.key < hi16 v
+    · rw [contains_cons_lt c cs v h1, chunk_cons_ne c cs _ (by omega)]
+      exact ih hdir.tail
+    · by_cases h2 : c.key = hi16 v
+      · rw [contains_cons_eq c cs v h2, chunk_cons_eq c cs _ h2]
+        unfold Container.contains
+        rw [Store.contains_spec _ (hdir.inv (List.mem_cons_self ..)) _ hl]
+        simp
+      · rw [contains_cons_gt c cs v (by omega)]
+        have : chunk (c :: cs) (hi16 v) = [] :=
+          chunk_nil_of_lt (fun d hd => by
+            rcases List.mem_cons.mp hd with h | h
+            · rw [h]; omega
+            · have := hdir.head_lt d h; omega)
+        rw [this]; simp
+
+theorem contains_spec (b : Bitmap) (h : b.WF) (v : Nat) :
+    contains b v = Spec.contains (elems b) v := by
+  unfold Spec.contains
+  rw [Spec.contains_eq, Bool.eq_iff_iff, contains_iff v b h.dir, decide_eq_true_eq, mem_elems b h.dir]
+  unfold hi16 lo16
+  exact Iff.rfl
+
+/-! ### `min` / `max` -/
+
+theorem cElems_head? (c : Container) (hc : c.store.Inv) :
+    c.elems.head? = (c.min?).map (join c.key) := by
+  unfold Container.elems Container.min?
+  rw [List.head?_map, Store.min?_spec _ hc]
+  rfl
+
+theorem cElems_getLast? (c : Container) (hc : c.store.Inv) :
+    c.elems.getLast? = (c.max?).map (join c.key) := by
+  unfold Container.elems Container.max?
+  rw [List.getLast?_map, Store.max?_spec _ hc]
+  rfl
 
 theorem min?_spec (b : Bitmap) (h : b.WF) : min? b = Spec.min? (elems b) := by
-  sorry
+  unfold min? Spec.min?
+  cases b with
+  | nil => rfl
+  | cons c cs =>
+    have hne := cElems_ne c (h.ne c (List.mem_cons_self ..))
+    rw [elems_cons, List.head?_append, cElems_head? c (h.dir.inv (List.mem_cons_self ..))]
+    simp only [List.head?_cons]
+    rw [← cElems_head? c (h.dir.inv (List.mem_cons_self ..))]
+    cases hce : c.elems with
+    | nil => exact absurd hce hne
+    | cons a l => rfl
 
 theorem max?_spec (b : Bitmap) (h : b.WF) : max? b = Spec.max? (elems b) := by
-  sorry
+  unfold max? Spec.max?
+  cases hl : b.getLast? with
+  | none =>
+    have : b = [] := List.getLast?_eq_none_iff.mp hl
+    subst this; rfl
+  | some c =>
+    obtain ⟨ys, rfl⟩ := List.getLast?_eq_some_iff.mp hl
+    have hc : c ∈ ys ++ [c] := by simp
+    have hne := cElems_ne c (h.ne c hc)
+    rw [elems_append, List.getLast?_append]
+    have e : elems [c] = c.elems := by simp [elems]
+    rw [e]
+    simp only []
+    rw [← cElems_getLast? c (h.dir.inv hc)]
+    cases hce : c.elems.getLast? with
+    | none => exact absurd (List.getLast?_eq_none_iff.mp hce) hne
+    | some a => rfl
+
+/-! ### `select` -/
+
+theorem select_eq (b : Bitmap) (h : b.Dir) (n : Nat) : select b n = (elems b)[n]? := by
+  induction b generalizing n with
+  | nil => simp [select, elems]
+  | cons c cs ih =>
+    have hinv := h.inv (List.mem_cons_self ..)
+    rw [elems_cons, List.getElem?_append, select, ← cLen_eq' c hinv]
+    by_cases hn : c.len > n
+    · rw [if_pos hn, if_pos hn]
+      unfold Container.elems
+      rw [List.getElem?_map, Store.select_spec _ hinv]
+      rfl
+    · rw [if_neg hn, if_neg hn]
+      exact ih h.tail _
+
+theorem select_spec (b : Bitmap) (h : b.WF) (n : Nat) : select b n = Spec.select (elems b) n :=
+  select_eq b h.dir n
 
 theorem rank_spec (b : Bitmap) (h : b.WF) (v : Nat) (hv : v < 4294967296) :
     rank b v = Spec.rank (elems b) v := by
-  sorry
-
-theorem select_spec (b : Bitmap) (h : b.WF) (n : Nat) : select b n = Spec.select (elems b) n := by
   sorry
 
 theorem rangeCardinality_spec (b : Bitmap) (h : b.WF) (lo hi : Bound)
